@@ -21,31 +21,36 @@ Property theorems only, about `HttpConn.step` / `HttpConn.request` — the funct
 namespace C17
 open HttpConn Ak
 
-/-- Every heap reachable by any history of operations satisfies the separation invariant. -/
-theorem reachable_inv (ops : List Op) : Inv (run Heap.empty ops) :=
-  run_inv Inv.empty ops
+/-- Every heap reachable by any history of operations satisfies the separation invariant, and the
+caller's dict objects in it exist and hold text only. -/
+theorem reachable_inv (ops : List Op) : Inv (run Heap.empty ops) ∧ DInv (run Heap.empty ops) :=
+  ⟨run_inv Inv.empty ops, run_dinv DInv.empty ops⟩
 
 /-- In a heap satisfying the invariant every connection has a view: the hypotheses
 `viewCore H c = some v` of the theorems below hold for every connection of every reachable heap, and
-a request with valid dictionary references never ends in the model's internal `KeyError`. -/
-theorem view_defined (H : Heap) (hi : Inv H) (c : Nat) (hc : c < H.conns.length) (args : Args)
-    (hh : ∀ n, args.headers = some n → n < H.dicts.length)
-    (hp : ∀ n, args.params = some n → n < H.dicts.length) :
+a request whose `headers=` / `params=` are dict objects of the caller never ends in the model's
+internal `KeyError`. -/
+theorem view_defined (H : Heap) (hi : Inv H) (hdi : DInv H) (c : Nat) (hc : c < H.conns.length) (args : Args)
+    (hh : ∀ n, args.headers = some n → n ∈ H.userDicts)
+    (hp : ∀ n, args.params = some n → n ∈ H.userDicts) :
     (∃ v, viewCore H c = some v) ∧ sentCore H c args ≠ .error .keyError := by
   obtain ⟨cn, hcn⟩ : ∃ cn, H.conns[c]? = some cn := ⟨H.conns[c], by simp [hc]⟩
   obtain ⟨h1, h2⟩ := hi.conn_ok c cn hcn
   have hv : viewCore H c = some (cn, H.impls[cn.impl].address, H.impls[cn.impl].sendIds, H.lists[cn.alist]) :=
     viewCore_some_iff.mpr ⟨H.impls[cn.impl], hcn, by simp [h2], by simp [h1], rfl, rfl⟩
   refine ⟨⟨_, hv⟩, ?_⟩
-  have od : ∀ r : Option Nat, (∀ n, r = some n → n < H.dicts.length) → ∃ d, optDict H r = some d := by
-    intro r hr
-    cases r with
+  obtain ⟨hd, hhd⟩ : ∃ d, optDict H args.headers = some d := by
+    cases hr : args.headers with
     | none => exact ⟨none, rfl⟩
     | some n =>
-      have hn := hr n rfl
-      exact ⟨some H.dicts[n], by simp [optDict, hn]⟩
-  obtain ⟨hd, hhd⟩ := od _ hh
-  obtain ⟨pd, hpd⟩ := od _ hp
+      obtain ⟨u, h1, _⟩ := optParams_user hdi (hh n hr)
+      exact ⟨_, h1⟩
+  obtain ⟨pd, hpd⟩ : ∃ d, optParams H args.params = some d := by
+    cases hr : args.params with
+    | none => exact ⟨none, rfl⟩
+    | some n =>
+      obtain ⟨u, _, h2⟩ := optParams_user hdi (hp n hr)
+      exact ⟨_, h2⟩
   rw [sentCore_eq, hv, hhd, hpd]
   simp only [pureSend]
   cases hr : applyAll H.lists[cn.alist] { path := args.path, headers := copyHeaders hd } with
@@ -69,14 +74,16 @@ theorem view_defined (H : Heap) (hi : Inv H) (c : Nat) (hc : c < H.conns.length)
           | pfx p => cases h1
           | auth k hv => simp only [applyReq] at h1; split at h1 <;> cases h1
           | trace t => simp only [applyReq] at h1; split at h1 <;> cases h1
+          | unwrap _ | count | compact | nullify => cases h1
+          | boom b => cases b <;> cases h1
     exact this _ _ hr
 
 /-- A request through `c` is a function of `c`'s view and of the dictionaries the caller passes:
 the adapters applied are exactly the current content of `c.adapters`, by `applyAll`, each once and in
 list order (`pureSend` unfolds to `applyAll` followed by `assemble`). -/
 theorem request_uses_chain (H : Heap) (c : Nat) (args : Args) (v : Conn × Str × Bool × List Adapter)
-    (hd pd : Option UDict) (hv : viewCore H c = some v) (hh : optDict H args.headers = some hd)
-    (hp : optDict H args.params = some pd) : sentCore H c args = pureSend v hd pd args := by
+    (hd : Option Dict) (pd : Option UDict) (hv : viewCore H c = some v) (hh : optDict H args.headers = some hd)
+    (hp : optParams H args.params = some pd) : sentCore H c args = pureSend v hd pd args := by
   rw [sentCore_eq, hv, hh, hp]
 
 /-- Deriving: `cls(parent, adapters=own)` (also the auth wrappers, `clone`, and the connection
@@ -109,8 +116,8 @@ theorem add_chain (H : Heap) (c : Nat) (a : Adapter) (cn : Conn) (addr : Str) (s
 
 /-- **Each adapter of the chain exactly once, in order.** When the adapters `as` accept the request:
 the path is the caller's path wrapped by the prefixes of `as` in list order (first innermost); the
-tracing header is the caller's text followed by the tags of `as` in list order, every tag once; the
-response processors run in the reverse order; headers other than `Authorization` and the tracing
+tracing header is the caller's text followed by the tags of `as` in list order, every tag once
+(the response side is `response_chain`); headers other than `Authorization` and the tracing
 header are the caller's. -/
 theorem chain_once (as : List Adapter) (ra0 ra : RA) (h : applyAll as ra0 = .ok ra) :
     ra.path = prefixFold (prefixesOf as) ra0.path ∧
@@ -118,9 +125,8 @@ theorem chain_once (as : List Adapter) (ra0 ra : RA) (h : applyAll as ra0 = .ok 
         dget ra.headers xtrace = some (.str (s ++ (traceTags as).flatten))) ∧
     (dget ra0.headers xtrace = none → traceTags as ≠ [] →
         dget ra.headers xtrace = some (.str (traceTags as).flatten)) ∧
-    responses as = (traceTags as).reverse ∧
     (∀ k, k ≠ Gen.C17.authHeader → k ≠ xtrace → dget ra.headers k = dget ra0.headers k) := by
-  refine ⟨applyAll_path h, (applyAll_trace h).1, ?_, responses_eq as, fun k h1 h2 => applyAll_other h h1 h2⟩
+  refine ⟨applyAll_path h, (applyAll_trace h).1, ?_, fun k h1 h2 => applyAll_other h h1 h2⟩
   intro hn hne
   rcases (applyAll_trace h).2 hn with ⟨he, _⟩ | ⟨_, hv⟩
   · exact absurd he hne
@@ -128,13 +134,12 @@ theorem chain_once (as : List Adapter) (ra0 ra : RA) (h : applyAll as ra0 = .ok 
 
 /-- **Inner prefixes outermost.** Through a connection with own adapters `own` derived from a parent
 with adapters `par`, the parent's prefixes are wrapped around the result of the own ones; the
-prefix applied last starts the final path; responses go through the parent's processors first. -/
+prefix applied last starts the final path. -/
 theorem prefix_outermost (own par : List Adapter) (ra0 ra : RA) (h : applyAll (own ++ par) ra0 = .ok ra) :
     ra.path = prefixFold (prefixesOf par) (prefixFold (prefixesOf own) ra0.path) ∧
-    (∀ ps q, prefixesOf (own ++ par) = ps ++ [q] → q <+: ra.path) ∧
-    responses (own ++ par) = responses par ++ responses own := by
+    (∀ ps q, prefixesOf (own ++ par) = ps ++ [q] → q <+: ra.path) := by
   have hp := applyAll_path h
-  refine ⟨?_, ?_, responses_append own par⟩
+  refine ⟨?_, ?_⟩
   · rw [hp, prefixesOf, List.filterMap_append, prefixFold_append]; rfl
   · intro ps q hq
     rw [hp, hq, prefixFold_append]
@@ -154,7 +159,7 @@ named `Authorization` and its value is `hv` — whatever the caller's headers we
 adapter refuse, see `auth_refused`). -/
 theorem auth_once (as : List Adapter) (ra0 ra : RA) (hv : HVal) (h : applyAll as ra0 = .ok ra)
     (h1 : authHdrs as = [hv]) (impl : Impl) (m : Option Str) (pd : Option UDict) (data : Body)
-    (resp : List Str) :
+    (resp : Except Err J) :
     let s := assemble impl ra m pd data resp
     dget s.headers Gen.C17.authHeader = some hv ∧ (s.headers.filter (·.1 = Gen.C17.authHeader)).length = 1 := by
   intro s
@@ -168,19 +173,20 @@ theorem auth_once (as : List Adapter) (ra0 ra : RA) (hv : HVal) (h : applyAll as
 /-- Without an authenticating layer nothing writes `Authorization`: the request carries what the
 caller passed (the last caller key that capitalises to it), or no such header. -/
 theorem auth_none (as : List Adapter) (ra0 ra : RA) (h : applyAll as ra0 = .ok ra) (h0 : authHdrs as = [])
-    (impl : Impl) (m : Option Str) (pd : Option UDict) (data : Body) (resp : List Str) :
+    (impl : Impl) (m : Option Str) (pd : Option UDict) (data : Body) (resp : Except Err J) :
     dget (assemble impl ra m pd data resp).headers Gen.C17.authHeader = lastCap ra0.headers Gen.C17.authHeader := by
   rw [assemble_header impl ra m pd data resp cap_id_ne_auth cap_ct_ne_auth]
   rcases applyAll_auth h with ⟨_, _, hl⟩ | ⟨hv', hs, _⟩
   · exact hl
   · rw [hs] at h0; cases h0
 
-/-- A chain with one authenticating adapter (or none) accepts every request whose caller headers have
-no key spelled exactly `Authorization`; the headers are a copy of the caller's. -/
-theorem auth_accepts (as : List Adapter) (path : Str) (hd : Option UDict)
-    (h : (authHdrs as).length ≤ 1) (hc : dget (copyHeaders hd) Gen.C17.authHeader = none) :
+/-- A chain with one authenticating adapter (or none), and without the harness's refusing adapter,
+accepts every request whose caller headers have no key spelled exactly `Authorization`; the headers are a copy of the caller's. -/
+theorem auth_accepts (as : List Adapter) (path : Str) (hd : Option Dict) (hcd : CallerDict hd)
+    (h : (authHdrs as).length ≤ 1) (hc : dget (copyHeaders hd) Gen.C17.authHeader = none)
+    (hb : Adapter.boom true ∉ as) :
     ∃ ra, applyAll as ⟨path, copyHeaders hd⟩ = .ok ra := by
-  apply applyAll_accepts as _ (TraceOk_copyHeaders hd)
+  apply applyAll_accepts as _ (TraceOk_copyHeaders hd hcd) hb
   match hs : authHdrs as, h with
   | [], _ => exact Or.inl rfl
   | [x], _ => exact Or.inr ⟨⟨x, rfl⟩, hc⟩
@@ -188,11 +194,12 @@ theorem auth_accepts (as : List Adapter) (path : Str) (hd : Option UDict)
 /-- Two authenticating layers in one chain: every request is refused with `AssertionError`
 (nothing is sent, no id is consumed). -/
 theorem auth_refused (H : Heap) (c : Nat) (args : Args) (v : Conn × Str × Bool × List Adapter)
-    (hd pd : Option UDict) (hv : viewCore H c = some v) (hh : optDict H args.headers = some hd)
-    (hp : optDict H args.params = some pd) (h2 : 2 ≤ (authHdrs v.2.2.2).length) :
+    (hd : Option Dict) (pd : Option UDict) (hv : viewCore H c = some v) (hh : optDict H args.headers = some hd)
+    (hcd : CallerDict hd) (hp : optParams H args.params = some pd) (h2 : 2 ≤ (authHdrs v.2.2.2).length)
+    (hb : Adapter.boom true ∉ v.2.2.2) :
     sentCore H c args = .error .assertion := by
   rw [request_uses_chain H c args v hd pd hv hh hp, pureSend,
-    applyAll_two_auth _ _ (TraceOk_copyHeaders hd) h2]
+    applyAll_two_auth _ _ (TraceOk_copyHeaders hd hcd) hb h2]
 
 /-- The value of the basic / client / token adapters: for **any** encoder `b64` with decoder `dec`
 (`dec (b64 x) = some x`), what follows `Basic ` decodes to the UTF-8 bytes of `login:password`
@@ -236,7 +243,7 @@ theorem literals : Gen.C17.authHeader = "Authorization".toList ∧ Gen.C17.basic
 
 /-- **URL** = address + path (+ `?` + url-encoded params when there are any), a `/` put between
 address and path exactly when neither brings one. -/
-theorem url (impl : Impl) (ra : RA) (m : Option Str) (pd : Option UDict) (data : Body) (resp : List Str) :
+theorem url (impl : Impl) (ra : RA) (m : Option Str) (pd : Option UDict) (data : Body) (resp : Except Err J) :
     (assemble impl ra m pd data resp).url =
       (if endsWithSlash impl.address = true ∨ startsWithSlash (withQuery ra.path pd) = true
        then impl.address ++ withQuery ra.path pd else impl.address ++ '/' :: withQuery ra.path pd) ∧
@@ -248,34 +255,126 @@ theorem url (impl : Impl) (ra : RA) (m : Option Str) (pd : Option UDict) (data :
     by_cases h2 : startsWithSlash (withQuery ra.path pd) = true <;> simp_all
 
 /-- **Method**: the given one in upper case; without one, `POST` iff the body is truthy. -/
-theorem method (impl : Impl) (ra : RA) (pd : Option UDict) (data : Body) (resp : List Str) :
+theorem method (impl : Impl) (ra : RA) (pd : Option UDict) (data : Body) (resp : Except Err J) :
     (∀ c r, (assemble impl ra (some (c :: r)) pd data resp).method = upper (c :: r)) ∧
     (assemble impl ra none pd data resp).method = (if data.truthy then Gen.C17.postMethod else Gen.C17.getMethod) ∧
     (assemble impl ra (some []) pd data resp).method = (if data.truthy then Gen.C17.postMethod else Gen.C17.getMethod) := by
   simp [assemble, mkMethod]
 
-/-- **Body by type**: nothing / the bytes as they are / UTF-8 of the text / UTF-8 of the json dump;
-only a structured body adds `Content-Type: application/json`, and only when the headers have no key
-spelled exactly `Content-Type`. Other header names are not affected by the body. -/
-theorem body (impl : Impl) (ra : RA) (m : Option Str) (pd : Option UDict) (resp : List Str) :
+/-- **Body by type**: nothing / the bytes as they are / UTF-8 of the text / UTF-8 of `json.dumps`
+(modelled: `J.dumps`); only a structured body adds `Content-Type: application/json`, and only when the
+headers have no key spelled exactly `Content-Type`. Other header names are not affected by the body.
+The default method looks at the truth value of the body, by type (`Body.truthy`, `J.truthy`). -/
+theorem body (impl : Impl) (ra : RA) (m : Option Str) (pd : Option UDict) (resp : Except Err J) :
     (assemble impl ra m pd .none resp).body = none ∧
     (∀ b, (assemble impl ra m pd (.bytes b) resp).body = some b) ∧
     (∀ s, (assemble impl ra m pd (.str s) resp).body = some (utf8s s)) ∧
-    (∀ t d, (assemble impl ra m pd (.json t d) resp).body = some (utf8s d)) ∧
-    (∀ t d, dget (withId impl.sendIds ra.headers).1 Gen.C17.ctHeader = none →
-       lastCap (mkBody (.json t d) (withId impl.sendIds ra.headers).1).2 (capitalize Gen.C17.ctHeader)
+    (∀ v, (assemble impl ra m pd (.json v) resp).body = some (utf8s v.dumps)) ∧
+    (∀ v, dget (withId impl.sendIds ra.headers).1 Gen.C17.ctHeader = none →
+       lastCap (mkBody (.json v) (withId impl.sendIds ra.headers).1).2 (capitalize Gen.C17.ctHeader)
          = some (.str Gen.C17.ctValue)) ∧
-    (∀ data, (∀ t d, data ≠ .json t d) → mkBody data (withId impl.sendIds ra.headers).1
+    (∀ data, (∀ v, data ≠ .json v) → mkBody data (withId impl.sendIds ra.headers).1
          = ((mkBody data (withId impl.sendIds ra.headers).1).1, (withId impl.sendIds ra.headers).1)) := by
-  refine ⟨rfl, fun _ => rfl, fun _ => rfl, fun _ _ => rfl, ?_, ?_⟩
-  · intro t d hn
+  refine ⟨rfl, fun _ => rfl, fun _ => rfl, fun _ => rfl, ?_, ?_⟩
+  · intro v hn
     have : dhas (withId impl.sendIds ra.headers).1 Gen.C17.ctHeader = false := (dhas_false_iff _ _).mpr hn
     simp only [mkBody, this]
     exact lastCap_dset_new _ _ hn rfl
   · intro data hne
     cases data with
-    | json t d => exact absurd rfl (hne t d)
+    | json v => exact absurd rfl (hne v)
     | _ => rfl
+
+/-- `json.dumps` as modelled: literals, decimal integers, escaped strings, `", "` and `": "`
+separators, keys in insertion order; the truth value of a structured body. -/
+theorem dumps_shape (k : Str) (v w : J) (r : JL) (s : Str) (n : Int) :
+    J.null.dumps = "null".toList ∧ (J.bool true).dumps = "true".toList ∧ (J.bool false).dumps = "false".toList ∧
+    (J.num n).dumps = (toString n).toList ∧ (J.str s).dumps = '"' :: s.flatMap escChar ++ ['"'] ∧
+    (J.arr .nil).dumps = "[]".toList ∧ (J.obj .nil).dumps = "{}".toList ∧
+    (J.arr (.cons k v (.cons k w r))).dumps = '[' :: v.dumps ++ ',' :: ' ' :: JL.dumpsArr (.cons k w r) ++ [']'] ∧
+    (J.obj (.cons k v .nil)).dumps = '{' :: dumpStr k ++ ':' :: ' ' :: v.dumps ++ ['}'] ∧
+    ((J.arr .nil).truthy = false ∧ (J.obj .nil).truthy = false ∧ (J.num 0).truthy = false ∧
+      J.null.truthy = false ∧ (J.arr (.cons k v r)).truthy = true ∧ (J.obj (.cons k v r)).truthy = true) := by
+  refine ⟨rfl, rfl, rfl, rfl, rfl, rfl, rfl, ?_, ?_, rfl, rfl, rfl, rfl, ?_, ?_⟩
+  · simp [J.dumps, JL.dumpsArr]
+  · simp [J.dumps, JL.dumpsObj]
+  · simp [J.truthy, JL.length]
+  · simp [J.truthy, JL.length]
+
+/-- **Response processors in reverse order, each exactly once.** What the caller gets is the decoded
+response pushed through the processors of the chain from the last adapter to the first: for a
+connection with own adapters `own` derived from a parent with adapters `par`, the parent's processors
+see the response first and the own ones produce the result; the value of every processor is passed on
+as it is — also when it is empty (`[]`, `{}`, `""`, `0`, `False`, `None`); the adapters of the
+repository (prefix, auth) do not touch it. -/
+theorem response_chain (own par : List Adapter) (raw : J) :
+    (respFold (own ++ par) raw = match respFold par raw with
+      | .ok v => respFold own v
+      | .error e => .error e) ∧
+    (∀ a, respFold [a] raw = procResp a raw) ∧ respFold [] raw = .ok raw ∧
+    (∀ as, respFold as raw = as.reverse.foldl (fun acc a => match acc with
+      | .ok v => procResp a v
+      | .error e => .error e) (.ok raw)) ∧
+    (∀ a v, (pfxOf a).isSome ∨ (authHdrOf a).isSome → procResp a v = .ok v) ∧
+    (∀ a as v w, respFold as raw = .ok v → procResp a v = .ok w → respFold (a :: as) raw = .ok w) :=
+  ⟨respFold_append own par raw, fun a => respFold_single a raw, rfl, fun as => respFold_eq_foldl as raw,
+   fun a v h => procResp_builtin a v h, fun a as v w h1 h2 => by simp [respFold, h1, h2]⟩
+
+/-- The value `do_request` returns through connection `c` is that fold over `c.adapters`, applied to
+the decoded body of the response (`""` for an empty body). -/
+theorem request_response (v : Conn × Str × Bool × List Adapter) (hd : Option Dict) (pd : Option UDict)
+    (args : Args) (s : Sent)
+    (h : pureSend v hd pd args = .ok s) : s.resp = respFold v.2.2.2 (decodeResp args.raw args.resp) := by
+  simp only [pureSend] at h
+  split at h
+  · cases h
+  · cases h; rfl
+
+/-- **Exceptions of adapters reach the caller.** If an adapter refuses the request (the loop stops at
+the first exception) the exception is the outcome, nothing is sent and no id is consumed (the only
+trace in the heap is the abandoned header object); if a response processor raises, the request has
+been sent and the exception is the outcome. Without a refusing adapter in the chain the only possible
+refusal is the `AssertionError` for a second `Authorization`. -/
+theorem exception_propagates (H : Heap) (c : Nat) (args : Args) (cn : Conn) (impl : Impl) (as : List Adapter)
+    (hd : Option Dict) (pd : Option UDict) (hv : connView H c = some (cn, impl, as))
+    (hh : optDict H args.headers = some hd) (hcd : CallerDict hd) (hp : optParams H args.params = some pd) :
+    (∀ e, applyAll as ⟨args.path, copyHeaders hd⟩ = .error e →
+        (request H c args).2 = .error e ∧ (request H c args).1.impls = H.impls) ∧
+    (∀ ra e, applyAll as ⟨args.path, copyHeaders hd⟩ = .ok ra →
+        respFold as (decodeResp args.raw args.resp) = .error e →
+        ∃ s, (request H c args).2 = .ok s ∧ s.resp = .error e) ∧
+    (Adapter.boom true ∈ as → ∃ e, (request H c args).2 = .error e ∧ (request H c args).1.impls = H.impls) ∧
+    (Adapter.boom true ∉ as → ∀ e, applyAll as ⟨args.path, copyHeaders hd⟩ = .error e → e = .assertion) := by
+  obtain ⟨hval, _, hrefused⟩ := request_spec H c args
+  have hpure : requestPure H c args = match applyAll as ⟨args.path, copyHeaders hd⟩ with
+      | .error e => .error e
+      | .ok ra => .ok (assemble impl ra args.method pd args.data (respFold as (decodeResp args.raw args.resp))) := by
+    simp only [requestPure, hv, hh, hp]
+    cases applyAll as ⟨args.path, copyHeaders hd⟩ <;> rfl
+  refine ⟨fun e he => ?_, ?_, ?_, ?_⟩
+  · have h2 : (request H c args).2 = .error e := by rw [hval, hpure, he]
+    exact ⟨h2, hrefused ⟨e, h2⟩⟩
+  · intro ra e ha hr
+    exact ⟨_, by rw [hval, hpure, ha], by simp [assemble, hr]⟩
+  · intro hb
+    obtain ⟨e, he⟩ := applyAll_boom as ⟨args.path, copyHeaders hd⟩ hb
+    have h2 : (request H c args).2 = .error e := by rw [hval, hpure, he]
+    exact ⟨e, h2, hrefused ⟨e, h2⟩⟩
+  · intro hb e he
+    have : ∀ (as : List Adapter) (ra : RA), TraceOk ra.headers → Adapter.boom true ∉ as →
+        applyAll as ra = .error e → e = .assertion := by
+      intro as
+      induction as with
+      | nil => intro ra _ _ h; cases h
+      | cons a as ih =>
+        intro ra ht hb h
+        simp only [applyAll] at h
+        rcases applyReq_ok_or (a := a) ht with ⟨r1, h1⟩ | ⟨h1, _⟩ | ⟨hab, _⟩
+        · rw [h1] at h
+          exact ih r1 (TraceOk_applyReq h1 ht) (fun hm => hb (List.mem_cons_of_mem _ hm)) h
+        · rw [h1] at h; cases h; rfl
+        · exact absurd (hab ▸ List.mem_cons_self) hb
+    exact this as _ (TraceOk_copyHeaders hd hcd) hb he
 
 /-- **Frame.** For every heap satisfying the invariant (every reachable heap does), every history
 `ops` that contains no `add_adapter` on `c` itself — derivations from `c` or from anything else,
@@ -287,7 +386,25 @@ theorem frame (H : Heap) (hi : Inv H) (ops : List Op) (c : Nat) (hc : c < H.conn
     (hp : ∀ n, args.params = some n → n < H.dicts.length) :
     sentCore (run H ops) c args = sentCore H c args := by
   obtain ⟨_, y, hy⟩ := run_mono H ops
-  rw [sentCore_eq, sentCore_eq, run_view hi hc ops hno, optDict_ext y hy _ hh, optDict_ext y hy _ hp]
+  rw [sentCore_eq, sentCore_eq, run_view hi hc ops hno, optDict_ext y hy _ hh, optParams_ext y hy _ hp]
+
+/-- The frame property with its hypotheses discharged by reachability: after any history `ops0`
+(from nothing), any further history `ops` without `add_adapter` on `c` leaves every request through
+`c` — with headers / params that are dict objects of the caller, or absent — unchanged, and that
+request is never the model's internal `KeyError`. -/
+theorem frame_reachable (ops0 ops : List Op) (c : Nat) (hc : c < (run Heap.empty ops0).conns.length)
+    (hno : ∀ op ∈ ops, ¬ op.addsTo c) (args : Args)
+    (hh : ∀ n, args.headers = some n → n ∈ (run Heap.empty ops0).userDicts)
+    (hp : ∀ n, args.params = some n → n ∈ (run Heap.empty ops0).userDicts) :
+    sentCore (run (run Heap.empty ops0) ops) c args = sentCore (run Heap.empty ops0) c args ∧
+    sentCore (run Heap.empty ops0) c args ≠ .error .keyError := by
+  obtain ⟨hi, hd⟩ := reachable_inv ops0
+  have lt : ∀ n, n ∈ (run Heap.empty ops0).userDicts → n < (run Heap.empty ops0).dicts.length := by
+    intro n hn
+    obtain ⟨u, hu⟩ := hd n hn
+    exact (List.getElem?_eq_some_iff.mp hu).1
+  exact ⟨frame _ hi ops c hc hno args (fun n h => lt n (hh n h)) (fun n h => lt n (hp n h)),
+    (view_defined _ hi hd c hc args hh hp).2⟩
 
 /-- **A connection depends only on its own construction and its own `add_adapter` calls.** From the
 moment `cls(parent, adapters=own)` returns, through every history without `add_adapter` on the new
@@ -305,8 +422,9 @@ theorem chain_stable (H H' : Heap) (hi : Inv H) (p n : Nat) (own : Own) (plain :
   rw [run_view hi' (by omega) ops hno]
   exact hview
 
-/-- **The caller's objects are never written.** No history changes a dictionary the caller created
-(headers / params), and a list of adapters of the caller changes only by the caller's own appends. -/
+/-- **The caller's objects are never written.** `RequestArguments.headers` is a new dict object per
+request and the adapters and `do_request` write to that object only: no history changes any dict
+object that exists — in particular none the caller created (headers / params) — and a list of adapters of the caller changes only by the caller's own appends. -/
 theorem caller_unchanged (H : Heap) (hi : Inv H) (ops : List Op) :
     (∀ d, d < H.dicts.length → (run H ops).dicts[d]? = H.dicts[d]?) ∧
     (∀ l, l ∈ H.userLists → (∀ op ∈ ops, ∀ a, op ≠ .listAppend l a) →
@@ -339,7 +457,7 @@ theorem clone_list (H : Heap) (hi : Inv H) (k : Nat) (cl : Caller) (own : Own)
   have hst : step H (.clone k own) =
       ({ H1 with callers := H1.callers ++ [⟨n, cl.pmap, []⟩] }, .ok (.ref H1.callers.length)) := by
     simp only [step, hk, hmk]
-  refine ⟨{ H1 with callers := H1.callers ++ [⟨n, cl.pmap, []⟩] }, by rw [hst, hcal], ?_, ?_, ?_, ?_, hd, ?_⟩
+  refine ⟨{ H1 with callers := H1.callers ++ [⟨n, cl.pmap, []⟩] }, by rw [hst, hcal], ?_, ?_, ?_, ?_, hd.1, ?_⟩
   · simp [hcal, hn]
   · rw [viewCore_callers, ← hn]; exact hview
   · intro j hj
@@ -393,7 +511,7 @@ private def ops1 : List Op :=
     .mk (.conn 1) (.list 2) true,                                               -- 2  HttpConn(c1, adapters=L)
     .add 0 (.trace "9.".toList) ]
 
-private def getArgs : Args := ⟨"/p".toList, some "GET".toList, none, .none, none⟩
+private def getArgs : Args := ⟨"/p".toList, some "GET".toList, none, .none, none, none, false⟩
 
 /-- inner prefix outermost, one Authorization header, trace once; the later `add` on connection 0
 is not seen through connection 2 -/
@@ -406,6 +524,16 @@ example : (match sentCore (run Heap.empty ops1) 2 getArgs with
 example : sentCore (run Heap.empty ops1) 2 getArgs = sentCore (run Heap.empty (ops1.take 4)) 2 getArgs := by
   decide +kernel
 example : b64enc (utf8s "u:p".toList) = "dTpw".toList := by decide +kernel
+/-- falsy results of response processors are passed on: `len([]) = 0` reaches the tracing layer, an
+unwrapped `[]` is compacted and nullified to `None`; a refusing processor is the outcome -/
+example : respFold [.trace "1.".toList, .count] (.arr .nil) =
+    .ok (.arr (.cons [] (.num 0) (.cons [] (.str "1.".toList) .nil))) := by decide +kernel
+example : respFold [.nullify, .compact, .unwrap "result".toList]
+    (.obj (.cons "result".toList (.arr (.cons [] (.num 0) (.cons [] (.str []) .nil))) .nil)) = .ok .null := by
+  decide +kernel
+example : respFold [.count, .boom false, .count] (.arr .nil) = .error .valueError := by decide +kernel
+example : (J.obj (.cons "é".toList (.arr (.cons [] (.num (-7)) (.cons [] (.str "a\"\n😀".toList) .nil))) .nil)).dumps
+    = "{\"\\u00e9\": [-7, \"a\\\"\\n\\ud83d\\ude00\"]}".toList := by decide +kernel
 /-- two authenticating layers are refused -/
 example : sentCore (run Heap.empty (ops1 ++ [.mk (.conn 2) (.one (mkToken "t".toList)) false])) 3 getArgs
     = .error .assertion := by decide +kernel
